@@ -77,6 +77,8 @@ def rslog(rnd, lo=-3.0, hi=3.0):
 
 def draw_count(draw, rnd):
     c = rnd.random()
+    if c < 0.02:
+        return rnd.choice([1000, 1024, 5000])      # size regime: well above the stated 0-400 and above any plausible internal threshold
     if c < 0.15:
         return rnd.choice(SPECIAL_COUNTS)
     if c < 0.5:
@@ -180,7 +182,7 @@ def fn_box(case, ctx):
     args = (conv(lo), conv(hi))
     box = AABB(*args)
     ctx.label("dim=%d" % d, "mode=" + mode, "kind=" + case["kind"], "pc" if pc else "array",
-              "n=0" if n == 0 else "n=1" if n == 1 else "n>1")
+              "n=0" if n == 0 else "n=1" if n == 1 else "n>1" if n < 1000 else "n>=1000")
     check_box(box, args, case, n, mode, pc, ctx)
     if case.get("again") and case["kind"] != "empty":
         ctx.label("second-call")
@@ -334,7 +336,7 @@ def fn_round(case, ctx):
     import mouette as M
     c, r, n, pc, which = case["center"], case["radius"], case["n"], case["pc"], case["which"]
     ctx.label(which, "r<1" if r < 1 else "r=1" if r == 1 else "r>1", "centre=0" if not any(c) else "centre!=0",
-              "pc" if pc else "array", "n=0" if n == 0 else "n>0", "r in 1e-3..1e3" if 1e-3 <= r <= 1e3 else "r extreme")
+              "pc" if pc else "array", "n=0" if n == 0 else "n>0" if n < 1000 else "n>=1000", "r in 1e-3..1e3" if 1e-3 <= r <= 1e3 else "r extreme")
     if isinstance(c[0], int):
         ctx.label("int-centre")
     if isinstance(r, int):
@@ -454,6 +456,8 @@ def build_mesh(case, kind, ctx, normals=False):
 def polylines(draw, mix, min_edges=1):
     n = max(draw(st.integers(2, 12)), mix.choice([2, 2, 3, 4, 5, 6, 8]))
     kind = mix.choice(["path", "cycle", "tree", "graph", "segments"])
+    if mix.random() < 0.02:
+        n, kind = mix.choice([1100, 1500]), mix.choice(["path", "cycle", "tree"])          # size regime: > 1000 edges
     rnd = np.random.RandomState(mix.randrange(2 ** 31))
     planar = mix.random() < 0.25
     pts = []
@@ -558,12 +562,15 @@ def fn_polyline(case, ctx):
     E, n, pc = case["E"], case["n"], case["pc"]
     for t in case["tags"]:
         ctx.label(t)
-    ctx.label("pc" if pc else "array", "n=0" if n == 0 else "n>0")
+    ctx.label("pc" if pc else "array", "n=0" if n == 0 else "n>0" if n < 1000 else "n>=1000", "edges>1000" if len(E) > 1000 else "edges<=1000")
     ctx.nontrivial(len(E) >= 2 and n > 0)
     mesh = build_mesh(case, "polyline", ctx)
     check_polyline_sample(mesh, case, n, pc, ctx)
     if case.get("again"):
         ctx.label("second-call")
+        # an independent polyline is sampled in between (no state may be shared between mesh objects)
+        other = {"V": [[100.0, 0.0, 0.0], [103.0, 0.0, 0.0], [103.0, 4.0, 0.0], [103.0, 4.0, 12.0]], "E": [[0, 1], [2, 1], [2, 3]]}
+        check_polyline_sample(polyline_from(other["V"], other["E"]), other, 25, False, ctx, note=" [independent mesh sampled between two requests]")
         check_polyline_sample(mesh, case, case["again"][0], case["again"][1], ctx, note=" [second request on the same mesh object]")
 
 
@@ -572,6 +579,11 @@ def fn_polyline(case, ctx):
 @st.composite
 def scaled_trisurf(draw, mix, max_faces=60, degenerate=True):
     s = draw(G.well_shaped_trisurf(max_faces=max_faces))
+    if degenerate and mix.random() < 0.02:
+        # size regime: > 1000 faces (regular grid of quads cut along a diagonal, bumped out of the plane)
+        Vg, Fg = G.op_triangulate_all(*G.grid(mix.choice([24, 30]), mix.choice([22, 26])), mix.randrange(2))
+        Vg = [[v[0], v[1], 0.3 * math.sin(0.4 * v[0]) * math.cos(0.3 * v[1])] for v in Vg]
+        s = {"V": Vg, "F": [list(map(int, f)) for f in Fg], "tags": ["base=biggrid", "bordered", "big-mesh"]}
     k = 10.0 ** mix.choice(SCALES)
     off = k * np.array(mix.choice([[0.0, 0.0, 0.0], [0.0, 0.0, 0.0], [1.0, -2.0, 0.5], [30.0, 10.0, -20.0]]))
     V = (np.array(s["V"], dtype=float) * k + off).tolist()
@@ -682,15 +694,17 @@ def check_surface_sample(mesh, case, n, pc, wn, ctx, note=""):
 def fn_surface(case, ctx):
     F, n, pc, wn = case["F"], case["n"], case["pc"], case["normals"]
     for t in case["tags"]:
-        if t.startswith(("base=", "scale=", "closed", "bordered", "degenerate")):
+        if t.startswith(("base=", "scale=", "closed", "bordered", "degenerate", "big-mesh")):
             ctx.label(t)
-    ctx.label("pc" if pc else "array", "normals" if wn else "no-normals", "n=0" if n == 0 else "n>0")
+    ctx.label("pc" if pc else "array", "normals" if wn else "no-normals", "n=0" if n == 0 else "n>0" if n < 1000 else "n>=1000")
     ctx.nontrivial(len(F) >= 2 and n > 0)
     mesh = build_mesh(case, "surface", ctx, normals=wn or bool(case.get("again") and case["again"][2]))
     check_surface_sample(mesh, case, n, pc, wn, ctx)
     if case.get("again"):
         ctx.label("second-call")
         n2, pc2, wn2 = case["again"]
+        other = {"V": [[100.0, 0.0, 0.0], [104.0, 0.0, 0.0], [100.0, 3.0, 0.0], [104.0, 3.0, 5.0]], "F": [[0, 1, 2], [1, 3, 2]]}
+        check_surface_sample(surface_from(other["V"], other["F"]), other, 25, False, True, ctx, note=" [independent mesh sampled between two requests]")
         check_surface_sample(mesh, case, n2, pc2, wn2, ctx, note=" [second request on the same mesh object]")
 
 
@@ -844,22 +858,29 @@ def control_net(rnd, shape):
             return [sig6(rnd.uniform(-1, 1) * (1e-6 if style == "tiny" else 1e6)) for _ in range(dim)]
         return [sig6(off[k] + rslog(rnd)) for k in range(dim)]
     if len(shape) == 1:
-        return [point() for _ in range(shape[0])], style
-    return [[point() for _ in range(shape[1])] for _ in range(shape[0])], style
+        return [point() for _ in range(shape[0])], style, point
+    return [[point() for _ in range(shape[1])] for _ in range(shape[0])], style, point
+
+
+CTORS = ["list", "numpy", "vec", "generator"]
 
 
 @st.composite
 def curve_case(draw):
     rnd = mixer(draw)
     deg = rnd.choice([0, 1, 2, 3, 4, 5, 6, draw(st.integers(0, 6))])
-    P, style = control_net(rnd, (deg + 1,))
+    P, style, point = control_net(rnd, (deg + 1,))
     custom = None
     if rnd.random() < 0.2:
         custom = sorted(draw(st.lists(T_IN, min_size=2, max_size=9)))
     ts = [sig6(rnd.random()) for _ in range(rnd.randint(1, 3))]
     return {"P": P, "style": style, "ts_in": ts + draw(st.lists(T_IN, max_size=4)), "ts_out": draw(st.lists(T_OUT, max_size=3)),
-            "n": rnd.randint(2, 9), "n_again": rnd.randint(2, 9), "custom": custom, "dir_seed": rnd.randrange(10 ** 6),
-            "ctor": rnd.choice(["list", "numpy", "vec"] + ["numpy-int", "vec-int"] * (style == "int"))}
+            "n": rnd.randint(2, 9), "n_again": rnd.choice([100, 101, 150]) if rnd.random() < 0.04 else rnd.randint(2, 9),
+            "custom": custom, "dir_seed": rnd.randrange(10 ** 6),
+            "ctor": rnd.choice(CTORS + ["numpy-int", "vec-int"] * (style == "int")),
+            # history: control points of the already evaluated / exported curve are edited, then everything is asked again
+            "edits": [[rnd.randrange(deg + 1), point(), rnd.choice(["rebind", "in-place"])] for _ in range(rnd.choice([1, 1, 2]))]
+                     if rnd.random() < 0.5 else None}
 
 
 def directions(seed, dim):
@@ -898,25 +919,37 @@ def fn_curve(case, ctx):
     D = directions(case["dir_seed"], dim)
     ctor = {"list": lambda: [list(p) for p in case["P"]], "numpy": lambda: np.array(case["P"], dtype=float),
             "vec": lambda: [M.Vec(*p) for p in case["P"]], "numpy-int": lambda: np.array(case["P"]).astype(int),
-            "vec-int": lambda: [M.Vec(*[int(x) for x in p]) for p in case["P"]]}[case["ctor"]]
+            "vec-int": lambda: [M.Vec(*[int(x) for x in p]) for p in case["P"]],
+            "generator": lambda: (list(p) for p in case["P"])}[case["ctor"]]           # one-shot iterable
     ctx.label("deg=%d" % deg, "dim=%d" % dim, "style=" + case["style"], "custom" if case["custom"] else "linspace", "ctor=" + case["ctor"])
     ctx.nontrivial(deg >= 2)
     arg = ctor()
     curve = BezierCurve(arg)
     ctx.check(curve.order == deg, "curve:order", f"order = {curve.order!r} for {deg + 1} control points")
 
-    def evaluate(t, tag):
-        ok, val = ctx.call("curve:evaluate", curve.evaluate, t)
+    def read_points():
+        return np.array([np.asarray(x, dtype=float).reshape(-1) for x in curve.pts], dtype=float)
+
+    def evaluate(t, tag, garble=False):
+        nonlocal P, scale
+        ok, raw = ctx.call("curve:evaluate", curve.evaluate, t)
         if not ok:
             return None
-        val = vec_of(val, dim, ctx, "curve:evaluate", f"evaluate({t!r})")
+        val = vec_of(raw, dim, ctx, "curve:evaluate", f"evaluate({t!r})")
         if val is None:
             return None
         ref = RB.curve(P, t)
         ctx.check(ctx.close(val, ref, 1e-12, scale), "curve:bernstein",
-                  f"degree {deg} control points {case['P']}: evaluate({t!r}) = {val.tolist()}, Bernstein form gives {ref.tolist()} ({tag})")
+                  f"degree {deg} control points {P.tolist()}: evaluate({t!r}) = {val.tolist()}, Bernstein form gives {ref.tolist()} ({tag})")
         ctx.check(in_hull_support(val, P, D, 1e-9 * scale), "curve:hull",
-                  f"control points {case['P']}: evaluate({t!r}) = {val.tolist()} leaves the support interval of the control points along a direction")
+                  f"control points {P.tolist()}: evaluate({t!r}) = {val.tolist()} leaves the support interval of the control points along a direction")
+        if garble and isinstance(raw, np.ndarray):
+            # the caller overwrites the array it was handed; whatever that array aliases, later answers must still be the Bernstein form of
+            # the control points as the object reports them afterwards
+            raw *= -3
+            raw += 7
+            P = read_points()
+            scale = max(float(np.max(np.abs(P))), 1e-300)
         return val
 
     for t in case["ts_in"]:
@@ -964,21 +997,61 @@ def fn_curve(case, ctx):
     # the control points (the object's and the caller's) are left alone by evaluation and export
     now = np.array([np.asarray(x, dtype=float).reshape(-1) for x in curve.pts], dtype=float)
     ctx.check(now.shape == P.shape and bool(np.all(now == P)), "curve:control-points-mutated", f"control points {case['P']} became {now.tolist()}")
-    ctx.check(bool(np.all(np.asarray(arg, dtype=float) == P)), "curve:argument-mutated", f"the control point argument {case['P']} became {np.asarray(arg, dtype=float).tolist()}")
+    if case["ctor"] != "generator":
+        ctx.check(bool(np.all(np.asarray(arg, dtype=float) == P)), "curve:argument-mutated", f"the control point argument {case['P']} became {np.asarray(arg, dtype=float).tolist()}")
+
+    # ---- history: the same object after its control points were edited (and after another curve object was used in between)
+    if case.get("edits"):
+        ctx.label("edited-net")
+        other = BezierCurve([list(p) for p in (P[::-1] * 0.5 + 1.0)])
+        for t in case["ts_in"][:2]:
+            ok, val = ctx.call("curve:evaluate", other.evaluate, t)
+            if ok:
+                ctx.check(ctx.close(np.asarray(val, dtype=float), RB.curve(P[::-1] * 0.5 + 1.0, t), 1e-12, max(scale, 1.0)), "curve:bernstein",
+                          f"second, independent curve object: evaluate({t!r}) = {val}")
+        expected = P.copy()
+        for i, new, how in case["edits"]:
+            typed = [int(x) for x in new] if case["ctor"] in ("numpy-int", "vec-int") else [float(x) for x in new]
+            if how == "rebind":
+                curve.pts[i] = M.Vec(*typed)
+            else:
+                for k, x in enumerate(typed):
+                    curve.pts[i][k] = x
+            expected[i] = new
+        P = read_points()
+        scale = max(float(np.max(np.abs(P))), 1e-300)
+        if not ctx.check(P.shape == expected.shape and bool(np.all(P == expected)), "curve:edit-not-visible",
+                         f"after the edits {case['edits']} the object reports the control points {P.tolist()}, expected {expected.tolist()}"):
+            return
+        stage = f"after the edits {case['edits']} of the already evaluated and exported curve"
+        for t in case["ts_in"]:
+            evaluate(t, stage)
+        export(None, case["n"], f" [{stage}]")
+        for t in list(case["ts_in"]) + [0.0, 1.0, 0.0]:
+            evaluate(t, stage + ", returned arrays overwritten by the caller", garble=True)
+        v0, v1 = evaluate(0.0, stage), evaluate(1.0, stage)
+        if v0 is not None:
+            ctx.check(ctx.close(v0, P[0], 1e-12, scale), "curve:endpoint", f"{stage}: evaluate(0) = {v0.tolist()} but the first control point is {P[0].tolist()}")
+        if v1 is not None:
+            ctx.check(ctx.close(v1, P[-1], 1e-12, scale), "curve:endpoint", f"{stage}: evaluate(1) = {v1.tolist()} but the last control point is {P[-1].tolist()}")
 
 
 @st.composite
 def patch_case(draw):
     rnd = mixer(draw)
     m, n = rnd.randint(0, 4), rnd.randint(0, 4)
-    P, style = control_net(rnd, (m + 1, n + 1))
+    P, style, point = control_net(rnd, (m + 1, n + 1))
     n1 = rnd.randint(2, 9)
     n2 = n1 if rnd.random() < 0.2 else rnd.randint(2, 9)
+    if rnd.random() < 0.03:                     # size regime: a resolution well above the documented default of 20
+        n1, n2 = rnd.choice([(24, 3), (3, 25), (21, 22)])
     uv = [[sig6(rnd.random()), sig6(rnd.random())] for _ in range(rnd.randint(1, 3))]
     return {"P": P, "style": style, "uv_in": uv + draw(st.lists(st.tuples(T_IN, T_IN).map(list), max_size=3)),
             "uv_out": draw(st.lists(st.one_of(st.tuples(T_OUT, T_IN), st.tuples(T_IN, T_OUT), st.tuples(T_OUT, T_OUT)).map(list), max_size=3)),
             "n1": n1, "n2": n2, "dir_seed": rnd.randrange(10 ** 6),
-            "ctor": rnd.choice(["list", "numpy", "vec"] + ["numpy-int", "vec-int"] * (style == "int"))}
+            "ctor": rnd.choice(CTORS + ["numpy-int", "vec-int"] * (style == "int")),
+            "edits": [[rnd.randrange(m + 1), rnd.randrange(n + 1), point(), rnd.choice(["rebind", "in-place"])] for _ in range(rnd.choice([1, 1, 2]))]
+                     if rnd.random() < 0.5 else None}
 
 
 def fn_patch(case, ctx):
@@ -993,7 +1066,8 @@ def fn_patch(case, ctx):
     D = directions(case["dir_seed"], dim)
     ctor = {"list": lambda: [[list(p) for p in row] for row in case["P"]], "numpy": lambda: np.array(case["P"], dtype=float),
             "vec": lambda: [[M.Vec(*p) for p in row] for row in case["P"]], "numpy-int": lambda: np.array(case["P"]).astype(int),
-            "vec-int": lambda: [[M.Vec(*[int(x) for x in p]) for p in row] for row in case["P"]]}[case["ctor"]]
+            "vec-int": lambda: [[M.Vec(*[int(x) for x in p]) for p in row] for row in case["P"]],
+            "generator": lambda: ((list(p) for p in row) for row in case["P"])}[case["ctor"]]        # one-shot iterables
     ctx.label("deg=%dx%d" % (m, n) if max(m, n) < 2 else "deg>=2", "dim=%d" % dim, "style=" + case["style"],
               "n1=n2" if n1 == n2 else "n1<n2" if n1 < n2 else "n1>n2", "square-net" if m == n else "rect-net")
     ctx.nontrivial(n1 != n2)
@@ -1002,18 +1076,31 @@ def fn_patch(case, ctx):
     patch = BezierPatch(arg)
     ctx.check(tuple(patch.order) == (m, n), "patch:order", f"order = {patch.order!r} for a {m + 1} x {n + 1} control net")
 
-    def evaluate(u, v, tag):
-        ok, val = ctx.call("patch:evaluate", patch.evaluate, u, v)
+    def read_net():
+        return np.array([[np.asarray(x, dtype=float).reshape(-1) for x in row] for row in patch.pts], dtype=float)
+
+    def refresh():
+        nonlocal P, scale, flat
+        P = read_net()
+        scale = max(float(np.max(np.abs(P))), 1e-300)
+        flat = P.reshape(-1, dim)
+
+    def evaluate(u, v, tag, garble=False):
+        ok, raw = ctx.call("patch:evaluate", patch.evaluate, u, v)
         if not ok:
             return None
-        val = vec_of(val, dim, ctx, "patch:evaluate", f"evaluate({u!r},{v!r})")
+        val = vec_of(raw, dim, ctx, "patch:evaluate", f"evaluate({u!r},{v!r})")
         if val is None:
             return None
         ref = RB.patch(P, u, v)
         ctx.check(ctx.close(val, ref, 1e-12, scale), "patch:bernstein",
-                  f"{m}x{n} control net {case['P']}: evaluate({u!r},{v!r}) = {val.tolist()}, Bernstein form gives {ref.tolist()} ({tag})")
+                  f"{m}x{n} control net {P.tolist()}: evaluate({u!r},{v!r}) = {val.tolist()}, Bernstein form gives {ref.tolist()} ({tag})")
         ctx.check(in_hull_support(val, flat, D, 1e-9 * scale), "patch:hull",
-                  f"control net {case['P']}: evaluate({u!r},{v!r}) = {val.tolist()} leaves the support interval of the control points along a direction")
+                  f"control net {P.tolist()}: evaluate({u!r},{v!r}) = {val.tolist()} leaves the support interval of the control points along a direction")
+        if garble and isinstance(raw, np.ndarray):
+            raw *= -3            # the caller overwrites the array it was handed (see fn_curve)
+            raw += 7
+            refresh()
         return val
 
     for u, v in case["uv_in"]:
@@ -1081,7 +1168,46 @@ def fn_patch(case, ctx):
     export(n2, n1, " [second export of the same patch object, resolutions swapped]")
     now = np.array([[np.asarray(x, dtype=float).reshape(-1) for x in row] for row in patch.pts], dtype=float)
     ctx.check(now.shape == P.shape and bool(np.all(now == P)), "patch:control-points-mutated", f"control net {case['P']} became {now.tolist()}")
-    ctx.check(bool(np.all(np.asarray(arg, dtype=float) == P)), "patch:argument-mutated", f"the control net argument {case['P']} became {np.asarray(arg, dtype=float).tolist()}")
+    if case["ctor"] != "generator":
+        ctx.check(bool(np.all(np.asarray(arg, dtype=float) == P)), "patch:argument-mutated", f"the control net argument {case['P']} became {np.asarray(arg, dtype=float).tolist()}")
+
+    # ---- history: the same object after its control points were edited (and after another patch object was used in between)
+    if case.get("edits"):
+        ctx.label("edited-net")
+        Q = P[::-1, ::-1] * 0.5 + 1.0
+        other = BezierPatch([[list(p) for p in row] for row in Q])
+        for u, v in case["uv_in"][:2]:
+            ok, val = ctx.call("patch:evaluate", other.evaluate, u, v)
+            if ok:
+                ctx.check(ctx.close(np.asarray(val, dtype=float), RB.patch(Q, u, v), 1e-12, max(scale, 1.0)), "patch:bernstein",
+                          f"second, independent patch object: evaluate({u!r},{v!r}) = {val}")
+        expected = P.copy()
+        for i, j, new, how in case["edits"]:
+            typed = [int(x) for x in new] if case["ctor"] in ("numpy-int", "vec-int") else [float(x) for x in new]
+            if how == "rebind":
+                patch.pts[i][j] = M.Vec(*typed)
+            else:
+                for k, x in enumerate(typed):
+                    patch.pts[i][j][k] = x
+            expected[i, j] = new
+        refresh()
+        if not ctx.check(P.shape == expected.shape and bool(np.all(P == expected)), "patch:edit-not-visible",
+                         f"after the edits {case['edits']} the object reports the control net {P.tolist()}, expected {expected.tolist()}"):
+            return
+        stage = f"after the edits {case['edits']} of the already evaluated and exported patch"
+        corners = ((0.0, 0.0, 0, 0), (1.0, 0.0, 0, n), (0.0, 1.0, m, 0), (1.0, 1.0, m, n))
+        for u, v in case["uv_in"]:
+            evaluate(u, v, stage)
+        for (u, v, i, j) in corners:
+            val = evaluate(u, v, stage + ", corner")
+            if val is not None:
+                ctx.check(ctx.close(val, P[i, j], 1e-12, scale), "patch:corner",
+                          f"{stage}: evaluate({u},{v}) = {val.tolist()} but the corner control point [{i}][{j}] is {P[i, j].tolist()}")
+        export(n1, n2, f" [{stage}]")
+        for u, v in [tuple(x) for x in case["uv_in"]] + [(c[0], c[1]) for c in corners] + [(0.0, 0.0)]:
+            evaluate(u, v, stage + ", returned arrays overwritten by the caller", garble=True)
+        for u, v in case["uv_in"]:
+            evaluate(u, v, stage + ", after the caller overwrote returned arrays")
 
 
 # =============================================================================================== registration
